@@ -31,7 +31,7 @@ for seed in seeds:
     with cf.ThreadPoolExecutor(max_workers=16) as ex:
         for name in ("blas", "blas_nd"):
             for w in range(16):
-                ex.submit(run, name, seed, w, 5200 if seed == seeds[0] else 9000)
+                ex.submit(run, name, seed, w, 12000 if seed == seeds[0] else 16000)
     classes, stats = C13.collect_failures(BUILD, DRV)
     print("seed", seed, stats["failing"], "failing cases,", len(classes), "classes,", len([k for k in classes if k not in allc]), "new")
     for k, c in classes.items():
